@@ -56,17 +56,20 @@ impl SixelParser {
             self.parse_char(ch)?;
         }
         self.parse_char('#')?;
+        // rows grow independently: pad every row to the widest one so the result is a full rectangle
+        let row_len = self.picture_data.iter().map(Vec::len).max().unwrap_or(0);
         let mut picture_data = Vec::new();
         for y in 0..self.height() {
-            let line = &self.picture_data[y as usize];
-            picture_data.extend(line);
+            let line = &mut self.picture_data[y as usize];
+            line.resize(row_len, 0);
+            picture_data.extend(line.iter());
         }
         Ok(Sixel {
             position: self.pos,
             vertical_scale: self.vertical_scale,
             horizontal_scale: self.horizontal_scale,
             picture_data,
-            size: (self.width(), self.height()).into(),
+            size: ((row_len / 4) as i32, self.height()).into(),
         })
     }
 
